@@ -3107,6 +3107,7 @@ class Set(Collection):
             if removed: (to_add, setdata.removed) = (to_add - removed, removed - to_add)
             if added: added |= to_add
             else: setdata.added = to_add  # added may be None
+            added, removed = setdata.added, setdata.removed  # both may have been replaced above
         if to_remove and reverse.is_collection:
             # for one-to-many, Set.reverse_remove() (called through each item's reference) has already
             # moved the removed items between the pending added/removed sets
